@@ -15,7 +15,7 @@ behaviour over all stores - and the correctness of contains_total / contains_som
 import re
 
 from .. import mir
-from ..common import CallGraph, call_matches, is_derive, with_closures
+from ..common import CallGraph, call_matches, is_derive, with_closures, bool_return_leaves
 from ..engine import Result, ok, finding, assumption, where
 from ..facts import BrokenCheck
 from . import c04
@@ -36,32 +36,96 @@ NARROW = "tx3_resolver::inputs::narrow::"
 SS = "tx3_resolver::inputs::narrow::SearchSpace"
 
 
+def _set_ops(F, f, depth=0):
+    """set-combining std operations a function (and the workspace functions it calls, 2 levels) performs"""
+    ops = set()
+    for g in with_closures(F, f):
+        for bi, t in mir.calls(g):
+            c = t.get("callee") or ""
+            n = c.split("::")[-1]
+            if "HashSet" in c or "BTreeSet" in c:
+                if n in ("intersection", "retain"):
+                    ops.add("meet")
+                if n in ("union", "extend", "insert"):
+                    ops.add("join")
+            r = t.get("resolved") or c
+            if depth < 2 and r in F.fns and r.startswith(NARROW) and r != f["path"]:
+                ops |= _set_ops(F, F.fns[r], depth + 1)
+    return ops
+
+
+def subset_roles(F):
+    """role of each Subset-typed field of SearchSpace, decided by how it is written: assigned from a function that intersects
+    sets -> 'meet' (holds what satisfies *every* constraint), from one that unites -> 'join' (what satisfies *some*)"""
+    roles = {}
+    fields = [fd["name"] for fd in F.adt(SS)["variants"][0]["fields"] if fd["ty"].endswith("narrow::Subset")]
+    for p, f in F.fns.items():
+        if not p.startswith(NARROW) or f.get("derived"):
+            continue
+        du = None
+        for bi, si, s in mir.stmts(f):
+            if f["blocks"][bi]["cleanup"]:
+                continue
+            lhs = s["lhs"]
+            fl = [q[1] for q in lhs["p"] if q[0] == "f" and q[2] == SS]
+            if not fl or fl[0] not in fields:
+                continue
+            du = du or mir.DefUse(f)
+            for o in mir.provenance(f, du, s["rv"].get("op") or s["rv"].get("pl") or {}, stop_at_calls=lambda t: True) if s["rv"]["k"] in ("use",) else []:
+                if o.kind == "call":
+                    r = o.term.get("resolved") or o.callee
+                    g = F.fns.get(r)
+                    if g is not None:
+                        ops = _set_ops(F, g)
+                        roles.setdefault(fl[0], set()).update(ops)
+    return fields, roles
+
+
 def f_candidates(F, res):
     f = F.fn(NARROW + "SearchSpace::take")
-    du = mir.DefUse(f)
     w = where(f)
     key = f["path"] + "|bounded take draws from the intersection only"
-    # the `take == None` arm returns the union unbounded (documented: no limit) -> allowed only on the None edge
+    fields, roles = subset_roles(F)
+    meet = {x for x in fields if roles.get(x) == {"meet"}}
+    join = {x for x in fields if "join" in roles.get(x, ())}
+    if not fields:
+        raise BrokenCheck("SearchSpace has no Subset field")
+    key_m = SS + "|some field holds the intersection of the constraints"
+    if meet:
+        res.add([ok("F-CANDIDATES", key_m, w, "%s is only ever assigned from Subset::intersection (HashSet::intersection)" % sorted(meet))])
+    if not meet:
+        res.add([finding("F-CANDIDATES", key_m, w, "no field of SearchSpace holds the intersection of the constraints any more (fields %s are written by %s): nothing restricts candidates to UTxOs that satisfy every constraint" % (fields, {k: sorted(v) for k, v in roles.items()}))])
+        return
+    # the `take == None` arm returns everything unbounded (documented: no limit) -> join fields allowed only on the None edge
     from ..e8_state import option_switch
     cfg = mir.CFG(f)
     sw = option_switch(f, 2)
-    union_reads = []
+    reads = []
     for bi, si, s in mir.stmts(f):
         rv = s["rv"]
         pl = rv.get("pl") if rv["k"] == "ref" else mir.op_place(rv.get("op")) if rv["k"] in ("use", "cast") else None
-        if pl is not None and any(p[0] == "f" and p[1] == "union" and p[2] == SS for p in pl["p"]):
-            union_reads.append((bi, s["line"]))
+        if pl is not None:
+            for q in pl["p"]:
+                if q[0] == "f" and q[2] == SS and q[1] in fields:
+                    reads.append((bi, s["line"], q[1]))
     if not sw:
         raise BrokenCheck("SearchSpace::take no longer matches on its limit")
     bad = []
-    for bi, line in union_reads:
+    meet_read = False
+    for bi, line, fld in reads:
         on_none = any(none_t is not None and (cfg.dominates(none_t, bi)) for (sb, none_t, some_t) in sw)
-        if not on_none:
-            bad.append(line)
+        if on_none:
+            continue
+        if fld in meet:
+            meet_read = True
+        else:
+            bad.append((line, fld))
     if bad:
-        res.add([finding("F-CANDIDATES", key, where(f, bad[0]), "when a limit is given, take() tops the candidates up from the *union* of the constraints: a UTxO that satisfies only one of them (e.g. the ref but not the address) becomes a candidate")])
+        res.add([finding("F-CANDIDATES", key + "|reads the union", where(f, bad[0][0]), "when a limit is given, take() tops the candidates up from `%s`, which holds the *union* of the constraints: a UTxO that satisfies only one of them (e.g. the ref but not the address) becomes a candidate" % bad[0][1])])
+    elif not meet_read:
+        res.add([finding("F-CANDIDATES", key, w, "with a limit, take() does not read the intersection of the constraints at all")])
     else:
-        res.add([ok("F-CANDIDATES", key, w, "with a limit, only `intersection` is read")])
+        res.add([ok("F-CANDIDATES", key, w, "with a limit, only %s (written by set intersection) is read" % sorted(meet))])
 
 
 def s_include(F, res):
@@ -146,14 +210,25 @@ def s_collateral(F, res):
                     if y.kind == "call" and y.callee == "std::iter::Iterator::filter":
                         for fr in y.term.get("fnrefs", ()):
                             g = F.fns.get(fr)
-                            if g is not None and any((t2.get("callee") or "").endswith("CanonicalAssets::is_only_naked") for _, t2 in mir.calls(g)):
-                                found = True
+                            if g is None:
+                                continue
+                            leaves = bool_return_leaves(F, g)
+                            if leaves is None:
+                                # shape not followed (e.g. a conjunction): fall back to "the test is consulted"
+                                if any((t2.get("callee") or "").endswith("CanonicalAssets::is_only_naked") for _, t2 in mir.calls(g)):
+                                    found = True
+                                continue
+                            for sign, t2, g2 in leaves:
+                                if (t2.get("callee") or "").endswith("CanonicalAssets::is_only_naked") and sign > 0:
+                                    recv = mir.provenance(g2, mir.DefUse(g2), t2["args"][0])
+                                    if any(x.kind == "arg" and x.local == 2 and ".assets" in x.proj for x in recv):
+                                        found = True
         if not found:
             good = False
     if good:
         res.add([ok("S-COLLATERAL", key, where(b), "pick_from_set(utxos.into_iter().filter(|x| x.assets.is_only_naked()).collect(), ..)")])
     else:
-        res.add([finding("S-COLLATERAL", key, where(b), "collateral candidates are not restricted to pure-lovelace UTxOs")])
+        res.add([finding("S-COLLATERAL", key, where(b), "collateral candidates are not restricted to pure-lovelace UTxOs (the filter must keep exactly the UTxOs whose own assets are `is_only_naked()`)")])
 
 
 def s_predicate(F, res, label=""):
@@ -170,7 +245,26 @@ def s_predicate(F, res, label=""):
                     names.add(c.split("::")[-1])
         key = "%s|%s predicate%s" % (m.group(2), m.group(3), label)
         if m.group(3) == "pick_single":
-            if "contains_total" in names:
+            shape = None
+            for g in with_closures(F, f):
+                if g is f:
+                    continue
+                leaves = bool_return_leaves(F, g)
+                if leaves is None:
+                    continue
+                for sign, t2, g2 in leaves:
+                    if (t2.get("callee") or "").endswith("CanonicalAssets::contains_total"):
+                        dg = mir.DefUse(g2)
+                        recv = mir.provenance(g2, dg, t2["args"][0])
+                        arg = mir.provenance(g2, dg, t2["args"][1])
+                        cand = any(x.kind == "arg" and x.local == 2 and ".assets" in x.proj for x in recv)
+                        targ = any(x.kind == "arg" and x.local == 1 for x in arg)
+                        shape = "ok" if (sign > 0 and cand and targ) else ("negated" if sign < 0 else "operands swapped: target.contains_total(candidate)")
+            if shape == "ok":
+                res.add([ok("S-PREDICATE", key, where(f), "keeps the candidates with candidate.assets.contains_total(target)")])
+            elif shape is not None:
+                res.add([finding("S-PREDICATE", key, where(f), "pick_single's filter is %s: the chosen UTxO need not cover the target" % shape)])
+            elif "contains_total" in names:
                 res.add([ok("S-PREDICATE", key, where(f), "selects with contains_total(target)")])
             else:
                 res.add([finding("S-PREDICATE", key, where(f), "pick_single does not test that the chosen UTxO alone covers the target (contains_total)")])
@@ -185,6 +279,110 @@ def s_predicate(F, res, label=""):
                 res.add([finding("S-PREDICATE", key, where(f), "pick_many can return a set that does not cover the target (missing is_empty_or_negative / contains_some)")])
 
 
+BULK = ("retain", "clear", "drain", "extract_if", "truncate", "split_off")
+SINGLE = ("remove", "take", "pop")
+
+
+def _is_excess_eval(F, g, depth=0):
+    """does g evaluate how much the set exceeds the target: a CanonicalAssets subtraction and a contains_total test"""
+    has_sub = has_ct = False
+    for h in with_closures(F, g):
+        for bi, t in mir.calls(h):
+            c = t.get("callee") or ""
+            r = t.get("resolved") or ""
+            if c == "std::ops::Sub::sub" and "CanonicalAssets" in (r + " ".join(t.get("gargs") or [])):
+                has_sub = True
+            if c.endswith("CanonicalAssets::contains_total"):
+                has_ct = True
+    return has_sub and has_ct
+
+
+def _shrinks(F, g, set_roots, du, depth=0):
+    """[(kind, name, fn, bb, line)] removals applied to a set derived from set_roots in g (and, through `&mut set` arguments,
+    in workspace callees)"""
+    out = []
+    for bi, t in mir.calls(g):
+        c = t.get("callee") or ""
+        name = c.split("::")[-1]
+        if not t["args"]:
+            continue
+        recv = mir.provenance(g, du, t["args"][0], transparent_extra=("std::ops::DerefMut::deref_mut",))
+        on_set = any(repr(o) in set_roots for o in recv)
+        if ("HashSet" in c or "BTreeSet" in c or "Vec" in c) and on_set:
+            if name in BULK:
+                out.append(("bulk", name, g, bi, t["line"]))
+            elif name in SINGLE:
+                out.append(("single", name, g, bi, t["line"]))
+        r = t.get("resolved") or c
+        if depth < 2 and r in F.fns and r.startswith("tx3_resolver::") and r != g["path"]:
+            h = F.fns[r]
+            for ai, a in enumerate(t["args"]):
+                org = mir.provenance(g, du, a)
+                if any(repr(o) in set_roots for o in org) and "&mut" in h["locals"][ai + 1]:
+                    dh = mir.DefUse(h)
+                    sub = _shrinks(F, h, {"arg%d" % (ai + 1)}, dh, depth + 1)
+                    out.extend(sub)
+    return out
+
+
+def s_trim(F, res, label=""):
+    """After pick_many has accumulated a covering set it may drop UTxOs that are not needed - but each removal has to be
+    justified against the excess of the set *as it is at that moment*: one removal per evaluation of the excess.  A bulk
+    removal (retain / drain ..) or several removals judged against one stale excess can leave a set that no longer covers."""
+    for p in sorted(F.fns):
+        m = re.search(r"<tx3_resolver::inputs::select::(\w+)::(\w+) as tx3_resolver::inputs::select::CoinSelection>::pick_many$", p)
+        if not m:
+            continue
+        f = F.fns[p]
+        du = mir.DefUse(f)
+        cfg = mir.CFG(f)
+        key = "%s|pick_many trims one UTxO per evaluation of the excess%s" % (m.group(2), label)
+        # the set that is returned on the covering path
+        roots = set()
+        for bi, si, s in mir.stmts(f):
+            if s["lhs"]["l"] == 0 and not s["lhs"]["p"] and s["rv"]["k"] == "use":
+                for o in mir.provenance(f, du, s["rv"]["op"]):
+                    roots.add(repr(o))
+        sh = _shrinks(F, f, roots, du)
+        if not sh:
+            res.add([ok("S-TRIM", key, where(f), "the accumulated set is returned without removals")])
+            continue
+        bad = None
+        loops = cfg.loops()
+        for kind, name, g, bi, line in sh:
+            if kind == "bulk":
+                bad = (g, line, "`%s` removes several UTxOs at once, all judged against one excess computed beforehand" % name)
+                break
+            if g is not f:
+                # a single removal inside a helper: the helper must be the per-iteration body (called from a loop in pick_many
+                # that re-evaluates the excess) - not modelled: treat like the direct case on the helper's own loops
+                cfg_g, du_g = mir.CFG(g), mir.DefUse(g)
+            else:
+                cfg_g, du_g = cfg, du
+            lp = [body for h, body in cfg_g.loops().items() if bi in body]
+            if not lp:
+                continue   # a single removal outside any loop happens at most once per call
+            body = min(lp, key=len)
+            evals = []
+            for bj in body:
+                t = g["blocks"][bj]["t"]
+                if t["k"] == "call":
+                    r = t.get("resolved") or t.get("callee") or ""
+                    h = F.fns.get(r)
+                    if (h is not None and _is_excess_eval(F, h)) :
+                        evals.append(bj)
+            if g is not None and _is_excess_eval(F, g) and False:
+                pass
+            if not any(cfg_g.dominates(e, bi) for e in evals):
+                bad = (g, line, "`%s` runs in a loop that does not re-evaluate the excess of the current set before each removal" % name)
+                break
+        if bad:
+            g, line, why = bad
+            res.add([finding("S-TRIM", key, where(g, line), "%s: two UTxOs that each fit in the overshoot but not together are both dropped and the returned set no longer covers the target" % why)])
+        else:
+            res.add([ok("S-TRIM", key, where(f), "each removal is dominated, inside its loop, by a fresh evaluation of the excess (available - target, contains_total)")])
+
+
 def run(ctx):
     F = ctx.F
     res = Result("C03")
@@ -193,15 +391,18 @@ def run(ctx):
     res.rule("S-COLLATERAL", "collateral candidates are pure-lovelace")
     res.rule("S-PREDICATE", "strategies guard their result with the covering predicates")
     res.rule("S-FABRICATE", "strategies return only UTxOs they were given")
+    res.rule("S-TRIM", "excess trimming removes one UTxO per evaluation of the excess of the current set")
     f_candidates(F, res)
     s_include(F, res)
     s_collateral(F, res)
     s_predicate(F, res)
+    s_trim(F, res)
     c04.s_fabricate(F, res)
     if ctx.tier == "thorough":
         F2 = ctx.facts("naive")
         r2 = Result("C03")
         s_predicate(F2, r2, label=" [naive_selector]")
+        s_trim(F2, r2, label=" [naive_selector]")
         f_candidates(F2, r2)
         have = {o.key for o in res.obs}
         res.add([o for o in r2.obs if o.key not in have])
